@@ -221,22 +221,7 @@ impl Mon {
     }
 
     pub fn b_on_release(&mut self, ni: usize, m: &Message, _meta: &MsgMeta, _nodes: &[Node], op: usize) {
-        // C15 leader side: first append after a finished snapshot is anchored at or after it
-        if self.on(P15) && m.get_msg_type() == MessageType::MsgAppend {
-            if let Some(min) = self.b.nb[ni].min_anchor.remove(&m.to) {
-                if m.index < min {
-                    self.violation(
-                        "C15",
-                        "append-anchored-before-finished-snapshot",
-                        format!(
-                            "leader {} resumed replication to {} with an append anchored at {} after a snapshot at {} was reported finished",
-                            ni + 1, m.to, m.index, min
-                        ),
-                        op,
-                    );
-                }
-            }
-        }
+        let _ = (ni, m, op);
     }
 
     // ------------------------------------------------------------------ after every call
@@ -599,6 +584,13 @@ impl Mon {
                 }
             }
         }
+        // an acknowledgement (possibly an old one) from the follower re-positions the leader by itself;
+        // the expectation only concerns replication resumed on the strength of the report
+        if let CallKind::Step(m) = kind {
+            if m.get_msg_type() == MessageType::MsgAppendResponse {
+                self.b.nb[ni].min_anchor.remove(&m.from);
+            }
+        }
         let m = match kind {
             CallKind::Step(m) if m.get_msg_type() == MessageType::MsgSnapshot => m,
             _ => return,
@@ -675,6 +667,22 @@ impl Mon {
         for m in msgs {
             match m.get_msg_type() {
                 MessageType::MsgAppend => {
+                    // C15 leader side: the first append generated after a finished snapshot is anchored at or after it
+                    if self.on(P15) {
+                        if let Some(min) = self.b.nb[ni].min_anchor.remove(&m.to) {
+                            if m.index < min {
+                                self.violation(
+                                    "C15",
+                                    "append-anchored-before-finished-snapshot",
+                                    format!(
+                                        "leader {} resumed replication to {} with an append anchored at {} after a snapshot at {} was reported finished",
+                                        id, m.to, m.index, min
+                                    ),
+                                    op,
+                                );
+                            }
+                        }
+                    }
                     *appends_any.entry(m.to).or_insert(0) += 1;
                     if !m.entries.is_empty() {
                         *appends_with_entries.entry(m.to).or_insert(0) += 1;
